@@ -218,7 +218,8 @@ static uint32_t mt_untemper(uint32_t y)
 		t = y ^ (t >> 11);
 	return t;
 }
-void plant_words(std::mt19937& G, unsigned pos, uint32_t val)
+// which: 0 both words of the pair, 1 only the first, 2 only the second (a single extreme 32-bit word is met once in 4e9 draws)
+void plant_words(std::mt19937& G, unsigned pos, uint32_t val, int which = 0)
 {
 	for(int attempt = 0; attempt < 2; attempt++)
 	{
@@ -238,7 +239,10 @@ void plant_words(std::mt19937& G, unsigned pos, uint32_t val)
 			G.discard(idx >= 624 ? 1 : 624 - idx + 1);	 // cross the next twist, then plant behind it
 			continue;
 		}
-		w[idx + pos] = w[idx + pos + 1] = mt_untemper(val);
+		if(which != 2)
+			w[idx + pos] = mt_untemper(val);
+		if(which != 1)
+			w[idx + pos + 1] = mt_untemper(val);
 		std::stringstream out;
 		for(size_t k = 0; k < w.size(); k++)
 			out << (k ? " " : "") << w[k];
@@ -293,7 +297,10 @@ std::vector<double> draw_untrapped(std::mt19937& G, const Spec& s, Counters* cnt
 	};
 	switch(s.kind)
 	{
-		case 0: return {libphysica::Sample_Uniform(G, p[0], p[1])};
+		case 0:
+			if(p[0] == std::floor(p[0]) && p[1] == std::floor(p[1]) && std::fabs(p[0]) < 1e6 && std::fabs(p[1]) < 1e6)
+				return {libphysica::Sample_Uniform(G, (int) p[0], (int) p[1])};   // whole-number limits written as ints (see kind 4)
+			return {libphysica::Sample_Uniform(G, p[0], p[1])};
 		case 1: return {libphysica::Sample_Gauss(G, p[0], p[1])};
 		case 2: return {(double) libphysica::Sample_Poisson(G, p[0])};
 		case 8:
@@ -326,7 +333,21 @@ std::vector<double> draw_untrapped(std::mt19937& G, const Spec& s, Counters* cnt
 				  calls++;
 				  return scale * shape_pdf(sh, a, b, (x - x0) / (x1 - x0));
 			};
-			double r = libphysica::Rejection_Sampling(pdf, x0, x1, scale * shape_max(sh, a, b) * p[4], G);
+			// Callers spell their requests in many ways. When the limits happen to be whole numbers they are passed the way a user
+			// writes them - as int expressions, with the density as a plain lambda - so that overload resolution and implicit
+			// conversions are part of what is exercised (the pinned API has exactly one candidate either way).
+			double r;
+			if(x0 == std::floor(x0) && x1 == std::floor(x1) && std::fabs(x0) < 1e6 && std::fabs(x1) < 1e6)
+			{
+				auto plain = [&, sh, a, b, x0, x1, scale](double x) {
+					tick();
+					calls++;
+					return scale * shape_pdf(sh, a, b, (x - x0) / (x1 - x0));
+				};
+				r = libphysica::Rejection_Sampling(plain, (int) x0, (int) x1, scale * shape_max(sh, a, b) * p[4], G);
+			}
+			else
+				r = libphysica::Rejection_Sampling(pdf, x0, x1, scale * shape_max(sh, a, b) * p[4], G);
 			if(cnt)
 				cnt->rej_iters = calls;
 			return {r};
@@ -485,6 +506,7 @@ struct Exec
 	}
 
 	bool planted_u = false;	  // the uniform deviate behind the current single-draw call is a planted extreme (0 or 1-2^-53)
+	bool consumed_zero_deviate = false;	  // some 64-bit deviate consumed by the current call was exactly 0 (planted)
 	void check_support(const Spec& s, const std::vector<double>& out)
 	{
 		const std::vector<double>& p = s.p;
@@ -508,6 +530,15 @@ struct Exec
 				for(double v : out)
 					if(v < 0 || v != std::floor(v))
 						bad(fmt("Poisson sample %.17g is not a non-negative integer", v));
+				// a Poisson variate further than 12 standard deviations (+12) from its mean has probability below 1e-30: a broken
+				// tail, not a fluctuation - unless one of the uniform deviates consumed was a planted exact zero
+				if(!consumed_zero_deviate)
+					for(size_t k = 0; k < out.size(); k++)
+					{
+						double lam = s.kind == 2 ? p[0] : p[k];
+						if(std::fabs(out[k] - lam) > 12.0 * std::sqrt(lam) + 12.0)
+							ctx.violate("C18:law:poisson-outlier", fmt("Sample_Poisson returned %.0f for mean %.17g (%+.1f standard deviations; probability < 1e-30 under the stated law)", out[k], lam, (out[k] - lam) / std::sqrt(lam)) + "; " + describe(s));
+					}
 				break;
 			case 3:
 			case 4:
@@ -657,6 +688,17 @@ struct Exec
 		if(s.kind == 8)
 			ctx.probe(P_VPOISSON);
 		fresh_state = false;
+		consumed_zero_deviate = false;
+		if(s.kind == 2 || s.kind == 8)
+		{
+			std::mt19937 H = pre;
+			for(long guard = 0; guard < 2000000 && !(H == G); guard++)
+			{
+				uint32_t w0 = (uint32_t) H(), w1 = (uint32_t) H();
+				if(w0 == 0 && w1 == 0)
+					consumed_zero_deviate = true;
+			}
+		}
 		check_support(s, out);
 		// replay from the same generator state: same outputs, same state handed back
 		ctx.probe(P_REPLAY_CHECKS);
@@ -789,6 +831,7 @@ struct Exec
 				if(!same)
 					ctx.violate("C18:replay-from-state:deep", fmt("draw number %zu of a long sequence: two executions from equal generator states differ in output or final state", k) + "; " + describe(s));
 			}
+			consumed_zero_deviate = true;	// pools may sit behind a planted state; the Poisson tail oracle is for single ops
 			if(k < 64 || s.kind == 1)
 				check_support(s, out);
 			if(out.empty())
@@ -1034,7 +1077,7 @@ struct Exec
 				// adversarial generator state: the property quantifies over ALL states, and some of them make one of the next uniform
 				// deviates exactly 0 (two zero words) or the largest value below 1 (two all-ones words). A seed sweep meets such a
 				// state once in 2^64 draws; here the words are planted at a plan-chosen distance ahead of the current position.
-				plant_words(G, (unsigned) std::max(0ll, std::min(400ll, o.i.empty() ? 0 : o.i[0])), o.i.size() > 1 && o.i[1] ? 0xffffffffu : 0u);
+				plant_words(G, (unsigned) std::max(0ll, std::min(400ll, o.i.empty() ? 0 : o.i[0])), o.i.size() > 1 && o.i[1] ? 0xffffffffu : 0u, o.i.size() > 2 ? (int) o.i[2] : 0);
 				ctx.probe(P_PLANT);
 				fresh_state = false;
 			}
@@ -1103,6 +1146,8 @@ struct Gen
 		Spec s;
 		s.kind = kind;
 		double off = r.chance(0.4) ? 0.0 : r.range(-100, 100), w = r.chance(0.4) ? 1.0 : r.logrange(1e-3, 1e3);
+		if(r.chance(0.12))
+			off = (double) r.irange(-50, 50), w = (double) r.irange(1, 40);	  // whole-number limits, as users type them
 		if(r.chance(0.15))
 			w = r.logrange(1e3, 1e10);	 // lengths in mm, times in ns: legal, and tolerances tied to the width show up here
 		if(r.chance(0.08))
@@ -1342,7 +1387,7 @@ struct Gen
 				}
 				s.pristine = r.chance(0.05) ? 1 : 0;
 				if(r.chance(plant_frac))
-					p.ops.push_back(Op("plant", {2 * (long long) r.irange(0, (s.kind == 6 || s.kind == 7) ? 60 : 6), (long long) r.below(2)}));
+					p.ops.push_back(Op("plant", {2 * (long long) r.irange(0, (s.kind == 6 || s.kind == 7) ? 60 : (s.kind == 2 || s.kind == 8) ? 30 : 6), (long long) r.below(2), (long long) r.below(3)}));
 				if(r.chance(conc_frac))
 				{
 					// two callers at once, each with its own generator (see exec_conc)
